@@ -2,26 +2,32 @@
 import fw
 import pipecheck
 import pipes
-from pipecheck import canon_impl, canon_model, model_request  # noqa: F401
+import trampipes
 
 LEAN_TARGETS = ["RxProofs.C03", "RxProofs.Ownership", "RxProofs.C02Comb", "RxProofs.C02Timed", "RxProofs.C02Win"]
 DRIVER = "drv_pipe"
 DRIVER_ROOT = "Pipe"
 SUPPORT_THEOREMS = ['C02Comb.dispose_releases_all_zip', 'C02Comb.dispose_releases_all_combine_latest', 'C02Comb.dispose_releases_all_with_latest_from', 'C02Comb.dispose_releases_all_fork_join', 'C02Comb.dispose_releases_all_amb', 'C02Comb.dispose_releases_all_amb2', 'C02Comb.dispose_releases_all_merge_all', 'C02Comb.dispose_releases_all_merge_maxc', 'C02Comb.dispose_releases_all_switch', 'C02Comb.dispose_releases_all_seq', 'C02Comb.dispose_releases_all_seq_inline', 'C02Comb.dispose_releases_all_catch_handler', 'C02Win.dispose_releases_all_count', 'C02Win.dispose_releases_all_boundaries', 'C02Win.dispose_releases_all_when', 'C02Win.dispose_releases_all_toggle', 'C02Win.dispose_releases_all_time', 'C02Win.dispose_releases_all_time_or_count', 'C02Win.dispose_releases_all_group', 'C02Comb.dispose_releases_all', 'C02Timed.dispose_cancels_timers', 'C02Timed.released_is_silent', 'C02Win.dispose_releases_all_fin', 'C02Win.group_holder_blocks_release']
 THEOREMS = SUPPORT_THEOREMS + ["C03.dispose_silences", "C03.dispose_frees_sources", "C03.stays_disposed", "C03.late_subscription_disposed",
-            "C03.fromIterable_polls", "C03.fromIterable_all", "Ownership.ownership_ok"]
+            "C03.fromIterable_polls", "C03.fromIterable_all", "C03.tramp_dispose_truncates", "C03.tramp_notifications_bounded",
+            "C03.tramp_silent_after_dispose", "C03.tramp_dispose_at_start", "C03.tramp_run_complete", "Ownership.ownership_ok"]
 RULE = ("generated pipelines (as C02) run once undisposed to collect every distinct virtual time of the run, then re-run with dispose() issued "
         "at those times, both before and after the same-instant notifications; recorded container calls replayed through the Lean heap model; "
         "oracle: after dispose() returned no notification reaches the subscriber, no user callback of the pipeline runs, every test-source "
-        "subscription is closed at that instant. plus from_iterable polling cases (model: fromIter). non-trivial = dispose happened while at "
-        "least one source subscription was open")
+        "subscription is closed at that instant. plus from_iterable polling cases (model: fromIter). plus single-thread runs on the DEFAULT "
+        "current-thread trampoline (harness/trampipes.py): trees of cold synchronous producers and combinators, the subscriber disposing "
+        "from inside its k-th notification for every k (and right after subscribe() returned); oracle: nothing (no notification, no user "
+        "callback of any producer/operator) happens after dispose() returned; flat merges of of/from_iterable/range/generate are also "
+        "compared event-for-event with the Lean trampoline model (Tramp.final). non-trivial = dispose happened while at "
+        "least one source subscription was open / while the undisposed run still had events to come")
 ASSUMPTIONS = ["windows and groups are flattened inside the generated pipelines (no live group/window subscriber shares a source)",
-               "single-threaded virtual-time execution"]
+               "single-threaded execution: virtual time (TestScheduler) for timelines, the default current-thread trampoline for cold synchronous producers"]
 TRUSTED_EXTRA = ["AST ownership translator harness/xlate/ownership.py", "recording wrappers harness/heaptrace.py"]
 LEVEL_TEXT = ("Lean theorems: after dispose() nothing is delivered by any AutoDetachObserver (subscriber's or a stage's), for every call list; "
               "dispose(root) at any position of any sequence of container calls disposes everything reachable from the root in that call, "
               "late attachments are disposed at once and nothing is un-disposed; from_iterable pulls exactly k+1 elements when disposed during "
-              "the k-th on_next. Ownership: regenerated table + decide. Tied to the code by replay of recorded container calls of real pipelines "
+              "the k-th on_next; on the current-thread trampoline, disposing during notification k truncates the run of any merged producers exactly "
+              "there (no later notification or producer callback), for every producer list and every k. Ownership: regenerated table + decide. Tied to the code by replay of recorded container calls of real pipelines "
               "disposed at every event time, and a direct oracle on notifications, user-callback times and subscription logs.")
 LEVEL_NOTE = ("Per-operator release theorems (every event trace): combinators C02Comb.*, timed operators C02Timed.*, windows/groups/using/finally C02Win.* — proved by the families' builders over their trace machines and audited here. Otherwise partial by catalogue, as C02: ownership (every acquired subscription/timer reachable from the returned disposable) is the regenerated "
               "AST table and the dynamic replay, not per-operator Lean proofs; 'no user callback runs' is derived from every stage's "
@@ -49,16 +55,68 @@ def cases(rng, tier):
         if k is not None:
             c["k"] = k
         yield c
+    # default-scheduler (trampoline) runs: flat merges (model + oracle) and random trees (oracle)
+    for i in range(fw.tier_scale(tier, 260, 3000)):
+        tree = trampipes.gen_flat(rng) if i % 2 == 0 else trampipes.gen_tree(rng, 3)
+        try:
+            n = trampipes.count_notifications(tree)
+        except Exception:  # noqa: BLE001 - a generated tree the library rejects at build time
+            continue
+        ks = list(range(-1, min(n, 14)))
+        if not trampipes.flat(tree) and len(ks) > 5:
+            ks = sorted(rng.sample(ks, 5))
+        for k in ks + ([None] if trampipes.flat(tree) else []):
+            yield {"op": "tramp", "tree": tree, "k": k}
+
+
+def model_request(case):
+    if case["op"] == "tramp":
+        if not trampipes.flat(case["tree"]):
+            return None
+        r = {"op": "tramp_merge", "producers": [[t[0], t[1]] for t in case["tree"][1:]]}
+        if case["k"] is not None:
+            r["k"] = case["k"]
+        return r
+    return pipecheck.model_request(case)
+
+
+_TAGS = {"pull": 0, "cond": 1, "iter": 2}
+
+
+def canon_impl(case, out):
+    if case["op"] == "tramp":
+        if not trampipes.flat(case["tree"]):
+            return out
+        evs = []
+        for e in out["log"]:
+            if e[0] == "cb":
+                evs.append(["cb", int(e[1][4:]), _TAGS[e[1][:4]]])
+            elif e[0] == "N":
+                evs.append(["N", e[1] // 100, e[1] % 100])
+            else:
+                evs.append(e)
+        return {"evs": evs, "queue_left": 0}
+    return pipecheck.canon_impl(case, out)
+
+
+def canon_model(case, resp):
+    if case["op"] == "tramp":
+        return resp
+    return pipecheck.canon_model(case, resp)
 
 
 def impl(case):
     if case["op"] == "from_iter":
         return pipecheck.from_iter_impl(case)
+    if case["op"] == "tramp":
+        return trampipes.run(case)
     out = pipes.run(case["pipeline"], dispose_at=case["dispose_at"], dispose_early=case["dispose_early"])
     return {k: out.get(k) for k in ("log", "subs", "cb_times", "disposed_at", "log_len_at_dispose", "cb_len_at_dispose", "escaped")}
 
 
 def oracle(case, out):
+    if case["op"] == "tramp":
+        return trampipes.oracle(case, out)
     if case["op"] == "from_iter":
         xs, k = case["xs"], case.get("k")
         want = len(xs) + 1 if k is None or k >= len(xs) else k + 1
@@ -80,23 +138,53 @@ def oracle(case, out):
 
 
 def nontrivial(case, out):
+    if case["op"] == "tramp":
+        return trampipes.nontrivial(case, out)
     if case["op"] == "from_iter":
         return case.get("k") is not None and case["k"] < len(case["xs"])
     T = out.get("disposed_at")
     return T is not None and any(a <= T and (b is None or b >= T) for subs in out["subs"] for a, b in subs)
 
 
+def _kinds(tree):
+    yield tree[0]
+    for t in tree[1:]:
+        if isinstance(t, list):
+            yield from _kinds(t)
+
+
 def bucket(case, out):
     if case["op"] == "from_iter":
         yield "from_iter"
+        return
+    if case["op"] == "tramp":
+        yield "tramp:flat-merge(model)" if trampipes.flat(case["tree"]) else "tramp:tree(oracle)"
+        yield "tramp:k=" + ("never" if case["k"] is None else "at-start" if case["k"] == -1 else "during")
+        for kd in set(_kinds(case["tree"])):
+            yield "tramp-node:" + kd
         return
     for s in case["pipeline"]["stages"]:
         yield "stage:" + s[0]
     yield "early" if case["dispose_early"] else "late"
 
 
+def _subtrees(tree):
+    for i, t in enumerate(tree):
+        if isinstance(t, list):
+            yield t
+            if len(tree) > 2 and tree[0] in trampipes.N_ARY:
+                yield tree[:i] + tree[i + 1:]
+            for u in _subtrees(t):
+                yield tree[:i] + [u] + tree[i + 1:]
+
+
 def shrink(case):
     if case["op"] == "from_iter":
+        return
+    if case["op"] == "tramp":
+        for t in _subtrees(case["tree"]):
+            for k in ([case["k"]] if case["k"] is None else range(-1, case["k"] + 1)):
+                yield dict(case, tree=t, k=k)
         return
     p = case["pipeline"]
     for i in range(len(p["stages"])):
@@ -117,6 +205,17 @@ def search(rng, tier, disagreeing):
     names.update(pipecheck.stages_for_rows(pipecheck.regenerate()["ownership_not_owned"]))
     names = sorted(n for n in names if n in pipes.STAGES) or None
     me = __import__("props.C03", fromlist=["x"])
+    for i in range(fw.tier_scale(tier, 600, 4000)):
+        tree = trampipes.gen_flat(rng) if i % 2 == 0 else trampipes.gen_tree(rng, 3)
+        try:
+            n = trampipes.count_notifications(tree)
+        except Exception:  # noqa: BLE001
+            continue
+        for k in range(-1, min(n, 14)):
+            c = {"op": "tramp", "tree": tree, "k": k}
+            v = oracle(c, impl(c))
+            if v:
+                return fw.shrink_failure(me, fw.Failure("oracle", c, v))
     for i in range(fw.tier_scale(tier, 1500, 10000)):
         p = pipes.gen_case(rng, 2 if i % 2 else 3, names if i % 4 else None)
         base = pipes.run(p)
@@ -133,6 +232,8 @@ def classify(case, why):
     """Known finding C03-subscribe-on-deferred: subscribe_on wraps the subscription in a ScheduledDisposable, so dispose() only
     *schedules* the unsubscription on the scheduler; stages upstream of subscribe_on keep running until that action runs
     (same virtual instant, later in the queue)."""
+    if case["op"] == "tramp":
+        return trampipes.classify(case, why)
     if case["op"] != "pipeline":
         return None
     idx = [i for i, s in enumerate(case["pipeline"]["stages"]) if s[0] == "subscribe_on"]
